@@ -179,7 +179,14 @@ theorem batch_verifier_verifies_every_lane_member :
     Gen.Auth.batchAddLanes.lookup "default" = some "return fmt.Errorf(\"unrecognized public key format\")" ∧
     Gen.Auth.applyTransactionsBatchUses =
       ["crypto.NewBatchVerifier()", "s.CheckTx(tx, \"\", batchVerifier)", "batchVerifier.Verify()",
-       "s.ApplyTransaction(uint64(r.Count), tx, hashString, crypto.NewBatchVerifier(true))", "crypto.NewBatchVerifier(true)"] := by
+       "s.ApplyTransaction(uint64(r.Count), tx, hashString, crypto.NewBatchVerifier(true))", "crypto.NewBatchVerifier(true)"] ∧
+    -- the map from batch indices back to transactions is extended for EVERY transaction, whatever CheckTx
+    -- answered: `CheckSignature` queues the signature before it can still fail (unauthorized signer), so a
+    -- skipped bookkeeping step would shift every later verdict onto the wrong transaction
+    Gen.Auth.firstPassBookkeepingUnconditional = true ∧
+    Gen.Auth.applyTransactionsFirstPass.getLast? = some "for j := preCount; j < postCount; j++ { batchToTxIdx = append(batchToTxIdx, i) }" ∧
+    Gen.Auth.applyTransactionsFirstPass.contains
+      "if _, checkErr := s.CheckTx(tx, \"\", batchVerifier); checkErr != nil { failedCheckTxs[i] = checkErr }" = true := by
   decide
 
 deriving instance DecidableEq for Except
